@@ -24,7 +24,8 @@ RULE = ('case = (searcher kind, ordered pattern list with markers, stream, split
 ASSUMPTIONS = ['patterns from the listed pools (no lookbehind / ^ under a window, whose meaning depends on text outside the searched slice)',
                'alphabet {a,b}, stream length bound as in bounds']
 REQUIRED_FLAGS = {'tie_at_start': 1, 'boundary_inside_match': 1, 'marker_before_match': 1,
-                  'zero_width': 1, 'prior_trimmed': 1, 'window_smaller_than_pending_at_call': 1}
+                  'zero_width': 1, 'prior_trimmed': 1, 'window_smaller_than_pending_at_call': 1,
+                  'instance_window_overridden_per_call': 1}
 
 RE_POOL = ['a', 'ab', 'b', 'a|ab', 'ab|a', 'b*', '(a)(b)?', '[ab]b', 'a$', 'aba']
 EX_POOL = ['a', 'ab', 'b', 'ba', 'aba', '']
@@ -45,6 +46,10 @@ def tasks(tier):
     for kind, pool in (('re', RE_POOL), ('exact', EX_POOL)):
         for first in pool:
             out.append(dict(kind=kind, first=first, mode='utf-8', tier=tier))
+    # an instance-level window together with a per-call window that overrides it (None, larger, or -1 = "use the instance's")
+    for kind, pool in (('re', RE_POOL), ('exact', EX_POOL)):
+        for first in pool:
+            out.append(dict(kind=kind, first=first, mode='bytes', tier=tier, inst_sw=1))
     return out
 
 
@@ -102,6 +107,9 @@ def run_case(acc, task, names, stream, cuts, W, prior, check=True):
         return TIMEOUT
 
     sp = ScriptSpawn(answer, timeout=5, encoding=enc)
+    if task.get('inst_sw') is not None:
+        sp.searchwindowsize = task['inst_sw']
+        acc.flags['instance_window_overridden_per_call'] += 1
     pats = [MARK[n] if n in MARK else S(n) for n in names]
     refpats = [MARK[n] if n in MARK else (re.compile(S(n), re.DOTALL) if kind == 're' else S(n))
                for n in names]
@@ -126,14 +134,15 @@ def run_case(acc, task, names, stream, cuts, W, prior, check=True):
     for _round in range(len(stream) + 3):
         del received[:]
         P = pending
-        W = Wseq[min(_round, len(Wseq) - 1)]
+        Wcall = Wseq[min(_round, len(Wseq) - 1)]
+        W = task.get('inst_sw') if Wcall == -1 else Wcall      # the window in force for this call
         if W and len(P) > W:
             acc.flags['window_smaller_than_pending_at_call'] += 1
         try:
             if kind == 're':
-                i = sp.expect(pats, timeout=5, searchwindowsize=W)
+                i = sp.expect(pats, timeout=5, searchwindowsize=Wcall)
             else:
-                i = sp.expect_exact(pats, timeout=5, searchwindowsize=W)
+                i = sp.expect_exact(pats, timeout=5, searchwindowsize=Wcall)
         except (EOF, TIMEOUT) as e:
             obs.append(('raised', type(e).__name__))
             break
@@ -238,8 +247,8 @@ def run_task(task):
             for cuts in refs.splittings(len(stream)):
                 nch = len(cuts) + 1
                 priors = [None] + [(pk, j) for pk in priors_kinds for j in range(nch + 1)]
-                for W in (None, 2, 3, (None, 2), (3, 1)):
-                    for prior in (priors if not isinstance(W, tuple) else [None]):
+                for W in ((None, 2, 3, (None, 2), (3, 1)) if task.get('inst_sw') is None else (None, 3, -1, (-1, None))):
+                    for prior in (priors if not isinstance(W, tuple) and task.get('inst_sw') is None else [None]):
                         obs, viols, judged = run_case(acc, task, names, stream, cuts, W, prior)
                         acc.execs += 1
                         acc.transitions += len(obs)
